@@ -118,13 +118,11 @@ Theorem reduce_den_z : forall m, valid_code m -> forall (x : coo Z) ax kd,
 Proof. exact reduce_den_z_proof. Qed.
 Print Assumptions reduce_den_z.
 
-(* GCXS.  Full statement: as reduce_den with gcxs_reduce and the dense meaning gden g, for every
-   axis argument.  It is FALSE of the code as it stands for two classes of axis tuples (see the two
-   refutations below); the proved part excludes exactly them by the clauses gcxs_axes_nonempty
-   (`axis[0]` on the empty tuple raises IndexError) and gcxs_axes_distinct (a repeated axis is
-   silently accepted).  [gcxs_ok g]: the entries of g denote distinct in-range positions
-   (executable form gcxs_okb, checked on every generated case; it follows from gcxs_wfb). *)
-Theorem gcxs_reduce_den_partial :
+(* GCXS: reduce_den with gcxs_reduce and the dense meaning gden g, for EVERY axis argument (a repeated
+   axis raises ValueError, the empty tuple goes through COO, every ordering of all axes takes the
+   flatten path, anything else re-compresses).  [gcxs_ok g]: the entries of g denote distinct in-range
+   positions (executable form gcxs_okb, checked on every generated case; it follows from gcxs_wfb). *)
+Theorem gcxs_reduce_den :
   forall (V : Type) (veqb : V -> V -> bool), (forall a b, veqb a b = true <-> a = b) ->
   forall (op : V -> V -> V), (forall a b c, op a (op b c) = op (op a b) c) -> (forall a b, op a b = op b a) ->
   forall (cast : V -> V), (forall a b, cast (op (cast a) (cast b)) = op (cast a) (cast b)) ->
@@ -133,7 +131,6 @@ Theorem gcxs_reduce_den_partial :
     (forall s f k, sup = Some s -> 1 <= k -> s f (k + 1) = op (s f k) (cast f)) ->
   forall (g : gcxs V) (ax : axis_arg) (keepdims : bool),
     gcxs_ok V g -> shape_ok (g_shape g) -> g_shape g <> [] ->
-    (forall nax, norm_axes (zlen (g_shape g)) ax = Ok nax -> gcxs_axes_ok nax = true) ->
     match gcxs_reduce V veqb op cast sup ident ax keepdims g with
     | Ok r =>
       exists osh gg, np_reduce V op cast ident ax keepdims (g_shape g) (gden g) = Ok (osh, gg) /\
@@ -145,7 +142,7 @@ Theorem gcxs_reduce_den_partial :
        \/ admissible V veqb op cast sup (g_fill g) = false)
     end.
 Proof. exact gcxs_reduce_den_proof. Qed.
-Print Assumptions gcxs_reduce_den_partial.
+Print Assumptions gcxs_reduce_den.
 
 Theorem gcxs_generated_is_model : forall m, valid_code m -> forall ax kd g,
   gcxs_reduce_z m ax kd g =
@@ -153,9 +150,8 @@ Theorem gcxs_generated_is_model : forall m, valid_code m -> forall ax kd g,
 Proof. exact gcxs_reduce_z_eq. Qed.
 Print Assumptions gcxs_generated_is_model.
 
-Theorem gcxs_reduce_den_z_partial : forall m, valid_code m -> forall (g : gcxs Z) ax (kd : bool),
+Theorem gcxs_reduce_den_z : forall m, valid_code m -> forall (g : gcxs Z) ax (kd : bool),
   gcxs_ok Z g -> shape_ok (g_shape g) -> g_shape g <> [] ->
-  (forall nax, norm_axes (zlen (g_shape g)) ax = Ok nax -> gcxs_axes_ok nax = true) ->
   match gcxs_reduce_z m ax kd g with
   | Ok r =>
     exists osh gg,
@@ -168,27 +164,13 @@ Theorem gcxs_reduce_den_z_partial : forall m, valid_code m -> forall (g : gcxs Z
      \/ adm_z m (g_fill g) = false)
   end.
 Proof. exact gcxs_reduce_den_z_proof. Qed.
-Print Assumptions gcxs_reduce_den_z_partial.
+Print Assumptions gcxs_reduce_den_z.
 
 Theorem gcxs_okb_sound : forall (g : gcxs Z), gcxs_okb g = true -> gcxs_ok Z g.
 Proof. exact (@gcxs_okb_spec Z). Qed.
 Print Assumptions gcxs_okb_sound.
 
-Theorem gcxs_axes_nonempty_refuted :
-  exists (g : gcxs Z) (ax : axis_arg),
-    gcxs_wfb g = true /\
-    gcxs_reduce_z 0 ax false g = Raise IndexError /\
-    exists r, np_reduce_dense Z (op_z 0) (ufunc_cast 0) (ufunc_ident 0) ax false (todense (gcxs_to_coo Z g)) 0 = Ok r.
-Proof. exact gcxs_axes_nonempty_refuted_proof. Qed.
-Print Assumptions gcxs_axes_nonempty_refuted.
 
-Theorem gcxs_axes_distinct_refuted :
-  exists (g : gcxs Z) (ax : axis_arg) r,
-    gcxs_wfb g = true /\
-    gcxs_reduce_z 0 ax false g = Ok r /\
-    np_reduce_dense Z (op_z 0) (ufunc_cast 0) (ufunc_ident 0) ax false (todense (gcxs_to_coo Z g)) 0 = Raise ValueError.
-Proof. exact gcxs_axes_distinct_refuted_proof. Qed.
-Print Assumptions gcxs_axes_distinct_refuted.
 
 (* dtype promotion of mean / var (decision GENERATED from SparseArray.mean / SparseArray.var; dtype codes:
    0 bool, 1..4 int8..int64, 5..8 uint8..uint64, 9 float16, 10 float32, 11 float64, 12/13 complex):
@@ -210,6 +192,12 @@ Theorem fill_correction_in_accumulation_dtype : s_fix_fill_in_acc_dtype = 1.
 Proof. exact fill_correction_in_accumulation_dtype_proof. Qed.
 Print Assumptions fill_correction_in_accumulation_dtype.
 
+(* sparse.nanmean returns its result in the dtype of the sum (the input's or the requested dtype): flag
+   GENERATED from `_coo/common.py: nanmean` (1: `out.astype(num.dtype) if out.dtype != num.dtype else out`) *)
+Theorem nanmean_result_in_sum_dtype : s_nanmean_keeps_sum_dtype = 1.
+Proof. exact nanmean_result_in_sum_dtype_proof. Qed.
+Print Assumptions nanmean_result_in_sum_dtype.
+
 Theorem var_dtype_promotion :
   (forall k, In k int_or_bool_dtypes -> var_dtype k None = Ok (Some 11)) /\
   (forall k, In k [9; 10; 11; 12; 13] -> var_dtype k None = Ok None) /\
@@ -224,7 +212,7 @@ Print Assumptions var_dtype_promotion.
    those rows.  (2) On the GCXS image of a canonical COO array, the whole re-compression path
    (Convert.gcxs_change_axes to the kept axes, then gcxs_ip_calc) returns the data, counts, row numbers
    and n_cols of COO._reduce_calc for the complementary axes in increasing order — the function the GCXS
-   model of gcxs_reduce_den_partial uses. *)
+   model of gcxs_reduce_den uses. *)
 Theorem gcxs_ip_calc_is_grouped_reduce :
   forall (V : Type) (op : V -> V -> V) (cast : V -> V) (x : gcxs V) rows m,
     g_indptr x = indptr_of rows m ->
